@@ -150,6 +150,7 @@ pub fn verif_slice_tail_mut(s: &mut [u8], a: usize) -> (r: &mut [u8])           
 impl Inner {
     pub uninterp spec fn wire_out(&self) -> Seq<u8>;       // ghost: every byte handed to the transport so far, in order
     pub uninterp spec fn wire_in(&self) -> Seq<u8>;        // ghost: the bytes the transport has still to deliver, in order
+    pub uninterp spec fn flushed(&self) -> nat;            // ghost: how many of the wire_out bytes the transport has been told to push out
     // A4 (tokio AsyncRead): Ready(Ok(n)) wrote n <= buf.len() bytes to the front of buf; n == 0 with a NON-EMPTY buf means EOF.
     // Polling with an empty buffer cannot distinguish EOF, hence the precondition ("no false end-of-stream").
     #[verifier::external_body]
@@ -169,9 +170,12 @@ impl Inner {
                 r matches std::task::Poll::Pending ==> final(self).wire_out() == old(self).wire_out(),
                 final(self).wire_in() == old(self).wire_in(),
     { unimplemented!() }
+    // A4 (tokio AsyncWrite::poll_flush): Ready(Ok) means everything written so far has been pushed out of the transport's own buffer
     #[verifier::external_body]
     pub fn poll_flush(&mut self, cx: &mut Cx) -> (r: std::task::Poll<Result<(), IoError>>)
-        ensures final(self).wire_out() == old(self).wire_out(), final(self).wire_in() == old(self).wire_in() { unimplemented!() }
+        ensures final(self).wire_out() == old(self).wire_out(), final(self).wire_in() == old(self).wire_in(),
+                r matches std::task::Poll::Ready(Ok(_)) ==> final(self).flushed() == final(self).wire_out().len(),
+    { unimplemented!() }
     #[verifier::external_body]
     pub fn poll_shutdown(&mut self, cx: &mut Cx) -> (r: std::task::Poll<Result<(), IoError>>)
         ensures final(self).wire_out() == old(self).wire_out(), final(self).wire_in() == old(self).wire_in() { unimplemented!() }
@@ -446,7 +450,9 @@ def add_stream(U):
             r matches Poll::Ready(Ok(_)) ==> final(this).write_buf.payload.content().len() == 0 && final(this).write_buf.frame.content().len() == 0
                 && final(this).inner.wire_out() == old(this).inner.wire_out() + old(this).write_buf.frame.content()
                     + (if old(this).write_buf.payload.content().len() > 0 { frame_of(*old(this).noise, old(this).write_buf.payload.content()) } else { Seq::<u8>::empty() }),
-""")
+""" + ("""            // flushing the encrypted stream flushes the transport underneath: nothing written and flushed stays in a buffer on the way
+            r matches Poll::Ready(Ok(_)) ==> final(this).inner.flushed() == final(this).inner.wire_out().len(),
+""" if f == "poll_flush" else ""))
 
 
 PRELUDE_HS = r"""
